@@ -49,7 +49,10 @@ def _sites(p):
 
                 def bump(ch, a=a):
                     old = a[1]
-                    a[1] = old + 1 + (ch % 3) if is_int(old) else (old * 2 + 1.5 if abs(old) < 1e300 else 0.5)
+                    if old in gen._HASH_TWINS and ch % 2:
+                        a[1] = gen._HASH_TWINS[old]
+                    else:
+                        a[1] = old + 1 + (ch % 3) if is_int(old) else (old * 2 + 1.5 if abs(old) < 1e300 else 0.5)
                     return a[1] != old
 
                 out.append(("arg-value", depth, in_macro, bump))
@@ -121,8 +124,9 @@ def _sites(p):
     for l in p["lets"]:
 
         def letv(ch, l=l):
-            l[1] = l[1] + 1 if is_int(l[1]) else l[1] + 0.5
-            return True
+            old = l[1]
+            l[1] = old + 1 if is_int(old) else (old + 0.5 if abs(old) < 1e15 else old * 2)
+            return l[1] != old
 
         out.append(("let-value", 0, False, letv))
     if p["reg"] and is_int(p["reg"][1]):
@@ -167,7 +171,7 @@ def _sites(p):
 
 def mutant_cases():
     def mk(ch):
-        prog, _b = gen.make_prog(ch, gen.Cfg(general_numbers=False, max_depth=4, macro_bias=1, max_macros=3))
+        prog, _b = gen.make_prog(ch, gen.Cfg(general_numbers=ch.int(0, 3) == 0, max_depth=4, macro_bias=1, max_macros=3))
         return {"prog": prog, "site": ch.int(0, 10**6), "choice": ch.int(0, 5)}
 
     return gen.cases(mk)
